@@ -250,7 +250,9 @@ def _text_class(t1, t2):
     p1, p2 = _conflict_path(t1), _conflict_path(t2)
     if p1 is None or p2 is None or p1 != p2:
         return None
-    if "volatile" in t1 and "volatile" in t2:
+    def vol(t):
+        return "Input is volatile" in t or "cannot be volatile" in t
+    if vol(t1) and vol(t2):
         return "volatile-vs-input"
     return "same-path-collision"
 
